@@ -908,3 +908,21 @@ def check_valid(hyps, goal, extra_axioms=(), timeout_ms=60000, fuel=3, want_mode
         return "failed", info
     info["reason"] = s.reason_unknown()
     return "undecided", info
+
+
+# removal of a key from a duplicate-free key list (del d[k]): membership is what is specified
+_remove_key: dict = {}
+
+
+def remove_key(elem_sort):
+    key = skey(elem_sort)
+    if key not in _remove_key:
+        LT = list_theory(elem_sort)
+        mem, _w = mem_theory(elem_sort)
+        F = z3.Function(f"remove_{LT.name}", LT.sort, elem_sort, LT.sort)
+        l = z3.Const(f"_rk_l_{LT.name}", LT.sort)
+        k, x = z3.Consts(f"_rk_k_{LT.name} _rk_x_{LT.name}", elem_sort)
+        TH.axiom([l, k, x], mem(F(l, k), x), mem(F(l, k), x) == z3.And(mem(l, x), x != k), f"remove.mem.{LT.name}")
+        TH.axiom([l, k, x], [F(l, k), mem(l, x)], mem(F(l, k), x) == z3.And(mem(l, x), x != k), f"remove.mem.r.{LT.name}")
+        _remove_key[key] = F
+    return _remove_key[key]
